@@ -329,7 +329,8 @@ def run_history(world, case):
     world.gifts = {}
     for t in range(n):
         for d in full[t]:
-            tasks[d].dependents.append(t)
+            if d != t:
+                tasks[d].dependents.append(t)
     stages = case.get('stages') or []
     if not stages:
         hard_g = world.DepGraph.from_dependency_dictionary(
@@ -391,6 +392,7 @@ def run_history(world, case):
             cyclic = is_cyclic(n, rfull)
             for t in range(n):
                 tasks[t].deps_idx = rfull[t]
+                tasks[t].dependents = [x for x in range(n) if t in rfull[x] and x != t]
             run_hard_g = world.DepGraph.from_dependency_dictionary(
                 {tasks[t]: [tasks[d] for d in run['hard'][t]] for t in range(n)})
             run_soft_g = world.DepGraph.from_dependency_dictionary(
@@ -398,6 +400,7 @@ def run_history(world, case):
         elif not stages:
             for t in range(n):
                 tasks[t].deps_idx = full[t]
+                tasks[t].dependents = [x for x in range(n) if t in full[x] and x != t]
 
         def body():
             if case.get('reuse') == 'backend' and reuse_box:
